@@ -168,11 +168,13 @@ class ReplayChooser:
 
 
 class Scheduler:
-    def __init__(self, chooser, whitelist, wait_timeout=300.0, max_points=200000):
+    def __init__(self, chooser, whitelist, wait_timeout=300.0, max_points=200000, max_yields=2_000_000):
         self.chooser = chooser
         self.whitelist = whitelist  # callable (basename, funcname) -> bool
         self.wait_timeout = wait_timeout
         self.max_points = max_points
+        self.max_yields = max_yields  # bound on voluntary waits (polling loops): beyond it the run is declared stuck
+        self.yields = 0
         self.trace = []
         self.points = 0
         self.switches = 0
@@ -335,6 +337,9 @@ class Scheduler:
     def yield_now(self, i):
         """Thread i has nothing to do for the moment (polling / sleeping):
         let somebody else run if anybody can."""
+        self.yields += 1
+        if self.yields > self.max_yields:
+            raise SimDeadlock(f"no progress: {self.yields} polls/waits without the run finishing (livelock)")
         others = [t for t in self._runnable() if t != i]
         if not others:
             return False
